@@ -5,7 +5,9 @@
 package vnode
 
 import (
+	"context"
 	"errors"
+	"fmt"
 	"io"
 	"net"
 	"os"
@@ -32,10 +34,14 @@ func newHalf() *half {
 
 type timeoutErr struct{}
 
-func (timeoutErr) Error() string   { return "i/o timeout" }
-func (timeoutErr) Timeout() bool   { return true }
-func (timeoutErr) Temporary() bool { return true }
+func (timeoutErr) Error() string        { return "i/o timeout" }
+func (timeoutErr) Timeout() bool        { return true }
+func (timeoutErr) Temporary() bool      { return true }
 func (timeoutErr) Is(target error) bool { return target == os.ErrDeadlineExceeded }
+
+// errCtxDeadline is how a transport that is driven by contexts (a tunnel over gRPC or websockets behind a
+// HostDialer) reports that its write deadline ran out: an error that wraps context.DeadlineExceeded.
+var errCtxDeadline = fmt.Errorf("tunnel: write: %w", context.DeadlineExceeded)
 
 // ErrTimeout is the deadline error of a Conn (a net.Error with Timeout() == true).
 var ErrTimeout net.Error = timeoutErr{}
@@ -118,17 +124,17 @@ func (h *half) closeRead() {
 type WriteRule struct {
 	Nth    int    `json:"nth"`
 	Accept int    `json:"accept"` // bytes accepted before the failure; <0: the whole write succeeds
-	Err    string `json:"err"`    // "" none, "timeout" (net.Error timeout), "reset" (generic error), "stall" (block until the write deadline or Release)
+	Err    string `json:"err"`    // "" none, "timeout" (net.Error timeout), "ctxdeadline" (an error wrapping context.DeadlineExceeded), "reset" (generic error), "stall" (block until the write deadline or Release)
 	Close  bool   `json:"close"`  // close the connection after this write
 }
 
 // Plan is the fault plan of one client-side connection.
 type Plan struct {
-	ReadChunks []int       `json:"read_chunks,omitempty"` // sizes the driver's Reads are limited to, cyclic; empty: unlimited
-	Writes     []WriteRule `json:"writes,omitempty"`
-	CutAt      int         `json:"cut_at,omitempty"` // >0: after this many bytes written in total the connection dies mid-write
-	WriteDelayUs int       `json:"write_delay_us,omitempty"` // >0: every Write of the driver takes this long before its bytes are delivered (a slow link)
-	CloseErr     bool      `json:"close_err,omitempty"`      // the driver's Close closes the connection and reports an error (a TLS connection whose close_notify cannot be sent)
+	ReadChunks   []int       `json:"read_chunks,omitempty"` // sizes the driver's Reads are limited to, cyclic; empty: unlimited
+	Writes       []WriteRule `json:"writes,omitempty"`
+	CutAt        int         `json:"cut_at,omitempty"`         // >0: after this many bytes written in total the connection dies mid-write
+	WriteDelayUs int         `json:"write_delay_us,omitempty"` // >0: every Write of the driver takes this long before its bytes are delivered (a slow link)
+	CloseErr     bool        `json:"close_err,omitempty"`      // the driver's Close closes the connection and reports an error (a TLS connection whose close_notify cannot be sent)
 }
 
 // ErrCloseNotify is what Close returns under Plan.CloseErr.
@@ -258,6 +264,8 @@ func (c *Conn) Write(p []byte) (int, error) {
 		err = werr
 	case errS == "timeout":
 		err = ErrTimeout
+	case errS == "ctxdeadline":
+		err = errCtxDeadline
 	case errS != "":
 		err = errReset
 	}
